@@ -82,7 +82,7 @@ def step (st : St) (line : String) : St × String :=
   let keyOf := fun (n : String) => if n = "NULL" then none else st.keys[n]?
   let setK := fun (n : String) (k : KeyS) => { st with keys := st.keys.insert n k }
   match toks with
-  | ["cfg", _, _, _, _, _] | ["sizes", _, _, _, _, _, _, _, _, _, _] | ["probes", _, _] | ["junk", _] | ["align", _] => (st, "ok")
+  | ["cfg", _, _, _, _, _] | ["sizes", _, _, _, _, _, _, _, _, _, _] | ["probes", _, _] | ["junk", _] | ["align", _] | ["guard", _] | ["overlap", _] => (st, "ok")
   | ["failat", k] => ({ st with failNext := if k = "none" then none else some (st.allocs + k.toNat!) }, "ok")
   | ["heap"] => (st, s!"live={st.live}")
   | [op, n] =>
